@@ -176,6 +176,28 @@ func Repeated(r *core.Rand, s *Spec) {
 	}
 }
 
+// RawQuery draws a raw query the way agents really send them (not url.Values.Encode, which escapes
+// everything): keys and values that contain the separator characters themselves - a bare '=' inside a
+// value (base64 padding, a=b expressions), '+', ';', escaped '=' and '&' - empty keys, pairs without
+// '=', empty pairs, repeated keys, invalid escapes.
+func RawQuery(r *core.Rand) string {
+	keys := []string{"a", "b", "sig", "token", "expr", "q", "", "k%3D", "x+y", "a", "sig", "%zz", "k;j"}
+	vals := []string{"1", "", "c2ln=", "YWJjZA==", "a=b", "a=b=c", "=", "==x", "v%3Dw", "p%26q", "x+y", "1;2", "%41%3d", "two", "%", "%4", "a%20b"}
+	n := r.Range(1, 5)
+	var ps []string
+	for i := 0; i < n; i++ {
+		switch r.Intn(8) {
+		case 0:
+			ps = append(ps, keys[r.Intn(len(keys))]) // no '=' at all
+		case 1:
+			ps = append(ps, "") // empty pair: "&&"
+		default:
+			ps = append(ps, keys[r.Intn(len(keys))]+"="+vals[r.Intn(len(vals))])
+		}
+	}
+	return strings.Join(ps, "&")
+}
+
 var sizeClasses = []int{0, 1, 2, 9, 15, 16, 17, 255, 256, 257, 1000, 4095, 4096, 4097}
 
 // Size draws a body size: small boundary values mostly; up to max otherwise.
@@ -212,6 +234,9 @@ func Gen(r *core.Rand, req bool, maxBody int) *Spec {
 		s.Method = r.Pick("POST", "PUT", "POST", "GET", "PATCH", "DELETE")
 		path := r.Pick("/", "/p", "/a/b/c", "/x.bin", "/q%20r")
 		q := r.Pick("", "", "?x=1", "?a=1&b=two&a=3", "?e=", "?k=v%20w&z=%C3%A9")
+		if r.Chance(1, 3) {
+			q = "?" + RawQuery(r)
+		}
 		if r.Chance(3, 4) {
 			s.URL = "http://" + host + path + q
 			s.Host = host
